@@ -96,7 +96,7 @@ def rnd_pos(rng, lo=-30, hi=30):
     return logu(rng, lo, hi)
 
 
-OPS = ["uniform", "exp", "normal", "gamma", "poisson", "recip", "recip1", "invsq", "radial", "iso",
+OPS = ["uniform", "exp", "normal", "normop", "normop", "gamma", "poisson", "recip", "recip1", "invsq", "radial", "iso",
        "box", "bern", "bern2", "select", "reject", "reject1", "rejloop", "tsai", "elgamma", "elgauss",
        "elgaussv"]
 
@@ -114,6 +114,13 @@ def gen_case(rng, op=None):
         k = rng.range(1, 5)
         p, s = [rnd_real(rng), rnd_pos(rng)], script(rng, 0, 2 * k + 1)
         return fmt(op, p, s, ints=[k]), (op, p, s, k)
+    elif op == "normop":
+        # special members of NormalDistribution: kind 1 move-ctor, 2 copy-assign, 3 move-assign;
+        # pre1 / pre2 odd => a pending spare value on that side
+        kind, p1, p2, k = rng.range(1, 3), rng.below(4), rng.below(4), rng.range(1, 4)
+        p = [rnd_real(rng), rnd_pos(rng), rnd_real(rng), rnd_pos(rng)]
+        s = script(rng, 0, 2 * (p1 + p2 + 2 * k) + 2)
+        return fmt(op, p, s, ints_first=[kind], ints=[p1, p2, k]), (op, p, s, kind)
     elif op == "gamma":
         k = rng.range(1, 3)
         alpha = rng.choice([1.0, 0.5, 2.0, 1.0 / 3, 1e-3, 1e3]) if rng.chance(1, 4) else logu(rng, -4, 4)
@@ -224,6 +231,12 @@ def directed():
             out.append(fmt("elgauss", [1.0, 0.5], [u1, u2, 0.3, 0.3]))
             out.append(fmt("gamma", [0.5, 1.0], [u1, u2, 0.5, u2], ints=[1]))
             out.append(fmt("gamma", [2.5, 1.0], [u1, u2, u2, 0.5, 0.5, 0.5], ints=[1]))
+    for kind in (1, 2, 3):
+        for p1 in (0, 1, 2):
+            for p2 in (0, 1, 2):
+                out.append(fmt("normop", [0.0, 1.0, 5.0, 3.0],
+                               [0.1, 0.2, 0.3, 0.4, 0.6, 0.7, 0.8, 0.9, 0.15, 0.25, 0.35, 0.45, 0.55, 0.65,
+                                0.75, 0.85], ints_first=[kind], ints=[p1, p2, 3]))
     for a, b in ((1.0, 2.0), (0.0, 1.0), (-1.0, 1.0), (1.0, 1.0 + 2.0 ** -52), (3.0, 3.0)):
         for u in (0.0, 2.0 ** -53, 1 - 2.0 ** -53, 0.5):
             out.append(fmt("uniform", [a, b], [u]))
@@ -876,7 +889,7 @@ def oracle_one(line, out):
                     "documented support is x >= 0 (finite)" % x)
         if not (x >= 0) or nonfinite(x):
             return ("oracle:exp:support", "sample %r not in [0, inf)" % x)
-    elif op in ("normal", "gamma", "elgamma", "elgauss", "elgaussv"):
+    elif op in ("normal", "normop", "gamma", "elgamma", "elgauss", "elgaussv"):
         xs = [fl(v) for v in vals]
         if any(nonfinite(x) for x in xs):
             if log0():
@@ -1282,6 +1295,31 @@ def ioni_part(ctx, ps, broken, quick):
                          "oracle_keys": sorted(seen), "shape_test_min_p": st}}
 
 
+def normal_copy_ctor_probe(ctx):
+    """NormalDistribution's copy CONSTRUCTOR is written `mean_{other.mean}, stddev_{other.stddev}`
+    (no such members): it cannot be instantiated, so harness/dist.cc exercises only the move
+    constructor and the two assignments.  Recorded as a note (no sample can come out of code that
+    does not compile); if it starts compiling, the model must be extended."""
+    d = os.path.join(vlib.BUILD, "probe_c15")
+    os.makedirs(d, exist_ok=True)
+    src = os.path.join(d, "normal_copy.cc")
+    with open(src, "w") as f:
+        f.write('#include "celeritas/random/distribution/NormalDistribution.hh"\n'
+                "int main() { celeritas::NormalDistribution<double> a(1, 2);\n"
+                "  celeritas::NormalDistribution<double> b(a); return 0; }\n")
+    inc, cxx, _ = vlib.harness_flags(["corecel"])
+    rc, out = vlib.sh(["g++"] + cxx + inc + ["-fsyntax-only", src], timeout=300)
+    if rc == 0:
+        ctx.violation("normal-copy-ctor-now-compiles", "NormalDistribution copy constructor became "
+                      "instantiable: extend Model/Dist.lean (Normal.copyCtor) and harness op normop",
+                      {"correspondence": "special members of NormalDistribution"}, found_input=False)
+    else:
+        ctx.notes.append("NormalDistribution(NormalDistribution const&) is ill-formed (other.mean / "
+                         "other.stddev do not exist): any code that copy-constructs a NormalDistribution "
+                         "does not compile; not a run-time violation")
+    return rc == 0
+
+
 def run(ctx):
     quick = ctx.quick()
     ps = common.proof_side(ctx, "C15")
@@ -1355,6 +1393,7 @@ def run(ctx):
                        "params": [fl(w) if len(w) == 16 else w for w in pw], "script": s,
                        "theorem": FINDING_TEXT.get(key, "Props/C15.lean *_support")})
     st_results, st_n = stat_oracle(ctx, exe, 40000 if quick else 250000)
+    ctx.coverage["normal_copy_constructor_instantiable"] = normal_copy_ctor_probe(ctx)
     el = eloss_part(ctx, ps, broken, quick)
     io = ioni_part(ctx, ps, broken, quick)
     if broken and not ctx.violations:
